@@ -288,6 +288,15 @@ def analyse(repo, package='pyx12', exclude=('test', 'scripts', 'examples')):
                 # ---- delimiter reads (C12)
                 if isinstance(n, ast.Attribute) and isinstance(n.ctx, ast.Load) and n.attr in DELIM_ATTRS:
                     findings.append(Finding('delim-read', m.name, qual, pm_stmt(pm, n), 'reads .%s' % n.attr))
+                if isinstance(n, ast.Call) and isinstance(n.func, ast.Name) and n.func.id == 'getattr' and len(n.args) >= 2 and \
+                        isinstance(n.args[1], ast.Constant) and n.args[1].value in DELIM_ATTRS:
+                    findings.append(Finding('delim-read', m.name, qual, pm_stmt(pm, n), 'getattr(.., %r)' % n.args[1].value))
+                if isinstance(n, ast.Compare) and any(isinstance(o, (ast.In, ast.NotIn, ast.Eq, ast.NotEq)) for o in n.ops):
+                    # a value compared with / searched for a LITERAL delimiter character (~ * : ^ | >): the data is looked at through
+                    # one particular encoding
+                    for side in [n.left] + list(n.comparators):
+                        if isinstance(side, ast.Constant) and isinstance(side.value, str) and side.value in ('~', '*', ':', '^', '|', '>'):
+                            findings.append(Finding('delim-read', m.name, qual, pm_stmt(pm, n), 'compares with the literal %r' % side.value))
                 if isinstance(n, ast.Call) and isinstance(n.func, ast.Attribute) and n.func.attr == 'get_term':
                     findings.append(Finding('delim-read', m.name, qual, pm_stmt(pm, n), 'calls get_term()'))
                 if isinstance(n, ast.Call) and isinstance(n.func, ast.Attribute) and n.func.attr in ('__repr__', '__str__'):
